@@ -58,3 +58,24 @@ CHECKS["C10"] = dict(
         dict(name="fuzz", test="FuzzDecode", kind="fuzz", fuzz_part="fuzz", tiers=["thorough"], fuzztime="180s", timeout=400, exclusive=True),
     ],
 )
+
+CHECKS["C19"] = dict(
+    pkg="c19", level="exploration",
+    rule=("part counter: rapid-generated histories (1..120 steps) of Incr(key from a skewed pool of 1..2*capacity+3 names)/Latch/Free on a "
+          "real hotkey.Counter of capacity 1..255, checked after every step against a model map (admitted at 1, +1 per access, reset on "
+          "Latch/Free): len <= capacity, exact counts for tracked keys, exactly one minimal-count key evicted on admission when full, "
+          "frequency list strictly increasing / no empty node / back-pointers and map<->list agreement (VerifDump walk), Latch returns "
+          "exactly the tracked map. part collector: histories of accesses on 1..4 per-backend counters, collect, clock advance, evict, "
+          "counter free on a real Collector; after every step HotKeys() has <= capacity entries, unique names, non-increasing heat, only "
+          "accessed names. part concurrent: goroutines Incr/Latch one counter; latched sum <= accesses and == accesses when capacity >= "
+          "distinct keys. Non-trivial: an eviction happened or a frequency node was created/removed inside the list (counter); >=2 "
+          "collections and the report reached capacity (collector); every concurrent case. Distinct by canonical JSON of the history."),
+    assumptions=["capacity 0 is excluded: no caller can create it (the collector is built with 50)",
+                 "report order is checked at quiescent points only (a HOTKEY read overlapping collect() is a schedule the harness does not own)",
+                 "the minute clock is constant during one collect()/evictStale() call"],
+    parts=[
+        dict(name="counter", test="TestCounterModel", kind="rapid", checks={"quick": 4000, "thorough": 250000}, shards=16, timeout={"quick": 600, "thorough": 3000}),
+        dict(name="collector", test="TestCollectorModel", kind="rapid", checks={"quick": 3000, "thorough": 100000}, shards=8, timeout={"quick": 600, "thorough": 3000}),
+        dict(name="concurrent", test="TestCounterConcurrent", kind="rapid", checks={"quick": 60, "thorough": 3000}, shards=4, timeout={"quick": 600, "thorough": 3000}),
+    ],
+)
